@@ -128,13 +128,28 @@ def run(ctx):
             sc = ["bufsize 64", "init 636c 0 8 8", "dial ok " + H(mq.connack()), "feed %s %s eof" % (H(pk), H(tailpk)), "rs", "readall", "rs", "rs"]
             scripts.append(sc)
             metas.append(([(topic, payload, qos), (b"after", b"x", 0)], 64, True))
+    # a pause between two packets: after a message beyond the read buffer that the application does not read (or a skipped big
+    # duplicate) the broker says nothing for a while, then goes on: the wait in between belongs to no packet
+    for qos in (0, 1, 2):
+        for dup in ((False, True) if qos == 2 else (False,)):
+            big = mq.publish(qos, b"big", bytes((3 * j) & 0xff for j in range(200)), 9 if qos else 0)
+            tailpk = mq.publish(0, b"after", b"x")
+            sc = ["bufsize 64", "init 636c 0 8 8", "dial ok " + H(mq.connack())]
+            exp = [(b"big", bytes((3 * j) & 0xff for j in range(200)), qos)]
+            if dup:
+                sc += ["feed %s %s block" % (H(big), H(mq.publish(qos, b"big", bytes((3 * j) & 0xff for j in range(200)), 9, dup=True))), "rs", "rs", "rs"]
+            else:
+                sc += ["feed %s block" % H(big), "rs", "rs"]
+            sc += ["feed %s eof" % H(tailpk), "rs", "rs"]
+            scripts.append(sc)
+            metas.append((exp + [(b"after", b"x", 0)], 64, False))
     res = sess.run_session(ctx, scripts)
     distinct, samples = set(), []
     keep = lambda l: l.startswith(("rs ", "readall", "ev w "))
     for sc, meta, (impl, model) in zip(scripts, metas, res):
         stats["scripts"] += 1
         tr = SC.parse_trace(impl, sc)
-        hits = SC.mon_sanity(tr)
+        hits = SC.mon_sanity(tr) + [h for h in SC.mon_deadline(tr) if h[0] == "deadline:armed-while-idle"]
         if meta is not None:
             expect, bufsize, use_readall = meta
             got = []
